@@ -584,6 +584,9 @@ class Engine:
             raise Unsupported('*args/**kwargs in function under contract')
         for nme, ty in c.get('closure_vars', {}).items():       # free variables of a nested function
             env[nme] = self.fresh_of_type(nme, ty)
+        for lhs, rhs in c.get('aliases', []):                   # declared aliasing between parameters' fields
+            ln = ast.parse(lhs, mode='eval').body
+            self.eval(ln.value, env).fields[ln.attr] = self.eval(ast.parse(rhs, mode='eval').body, env)
         return env
 
     def snapshot(self, v):
@@ -1280,6 +1283,8 @@ class Engine:
                  ast.Eq: lambda: a == b, ast.NotEq: lambda: a != b}
         if type(op) not in table:
             raise Unsupported('comparison operator')
+        if isinstance(a, VObj) and isinstance(b, VObj) and isinstance(op, (ast.Eq, ast.NotEq)):
+            return (a is b) if isinstance(op, ast.Eq) else (a is not b)      # classes here define no __eq__: identity
         if isinstance(a, (VObj, VTuple, VSeq, VArr)) or isinstance(b, (VObj, VTuple, VSeq, VArr)):
             raise Unsupported('comparison of structured values')
         return table[type(op)]()
@@ -1524,6 +1529,8 @@ class Engine:
         kw = {k.arg: self.eval(k.value, env) for k in e.keywords}
         if isinstance(f, VClosure):
             return self.call_inline(f.node, f.env, args, kw, f.modinfo, None, e)
+        if isinstance(f, VObj):
+            return self.call_method(f, '__call__', args, kw, e)
         if isinstance(f, VClass):
             crel = self.classmodels[f.model]['file']
             o = self.construct(crel, f.model, args, kw, e)
@@ -1670,9 +1677,11 @@ class Engine:
             else:
                 raise Unsupported('modifies target ' + m)
         res = None
-        if 'returns' not in c and any('result' in e for e in c.get('ensures', [])):
+        if 'returns' not in c and 'returns_expr' not in c and any('result' in e for e in c.get('ensures', [])):
             raise Unsupported('contract of {} constrains `result` but declares no `returns` type'.format(key[1]))
-        if 'returns' in c:
+        if 'returns_expr' in c:
+            res = self.spec_eval(c['returns_expr'], env)
+        elif 'returns' in c:
             res = self.fresh_of_type('ret_' + key[1], c['returns'])
             if isinstance(res, VObj):
                 self.created.setdefault(res.cls, []).append(res)
@@ -1747,6 +1756,7 @@ class Engine:
 
     def class_mro(self, cls):
         crel = self.classmodels.get(cls, {}).get('file')
+        cls = self.classmodels.get(cls, {}).get('real', cls)
         out, todo = [], [(crel, cls)]
         while todo:
             rel, c = todo.pop(0)
@@ -1884,13 +1894,20 @@ def sf_lam2(eng, node, env):
 sf_lam2.raw = True
 
 
-def sf_implies(eng, node, a, b):
-    a, b = as_bool(a), as_bool(b)
-    if a is False or b is True:
+def sf_implies(eng, node, env):
+    """implies(a, b): b is not evaluated when a is concretely false (so b may be ill-typed there)"""
+    a = as_bool(eng.eval(node.args[0], env))
+    if a is False:
+        return True
+    b = as_bool(eng.eval(node.args[1], env))
+    if b is True:
         return True
     if a is True:
         return b
     return z3.Implies(a, toz(b))
+
+
+sf_implies.raw = True
 
 
 def sf_forall_int(eng, node, env):
@@ -1922,6 +1939,7 @@ def _wrap(fn, ret=None):
 SPEC_FUNCS = {
     'old': sf_old, 'implies': sf_implies, 'forall': sf_forall_int, 'created': sf_created,
     'lam2': sf_lam2, 'card2': lambda eng, node, st: specs.card2(st.arr),
+    'gdom': _wrap(specs.gdom), 'grng': _wrap(specs.grng), 'rowlits': _wrap(specs.rowlits), 'collits': _wrap(specs.collits),
     'm_complete': _wrap(specs.m_complete), 'm_functional': _wrap(specs.m_functional),
     'm_surjective': _wrap(specs.m_surjective), 'm_injective': _wrap(specs.m_injective),
     'm_nondecreasing': _wrap(specs.m_nondecreasing), 'bitlen': _wrap(specs.bitlen),
@@ -2041,6 +2059,9 @@ def b_list(eng, node, v=None):
 
 def b_isinstance(eng, node, v, t):
     # decided by the declared type (DESIGN 2.1)
+    if isinstance(t, VTuple):
+        rs = [b_isinstance(eng, node, v, x) for x in t.items]
+        return any(rs)
     name = t[1] if isinstance(t, tuple) and t[0] == 'global' else None
     if isinstance(t, VSpecFn) and t.fn is b_int:
         name = 'int'
@@ -2048,8 +2069,9 @@ def b_isinstance(eng, node, v, t):
             and not isinstance(v, bool):
         return True
     if isinstance(v, VObj) and name:
+        real = eng.classmodels.get(v.cls, {}).get('real', v.cls)
         mro = eng.class_mro(v.cls)
-        return name.split('.')[-1] in mro
+        return name.split('.')[-1] in mro or name.split('.')[-1] == real
     raise Unsupported('isinstance({!r}, {})'.format(v, name))
 
 
